@@ -255,6 +255,7 @@ class Obj:
         self.mem = None
         self.forced = False
         self.maybe = None   # a value the object MAY have loaded (input of a dependant whose attempt was cut short)
+        self.wired = None   # the input objects it was first wired to (name mode: see MChain)
 
     @property
     def persisting(self):
@@ -278,6 +279,17 @@ class MChain:
         self.local_mt = {}
         for n, o in self.by_name.items():
             self.local_mt.setdefault(id(o), mtasks[n])
+        if not pm:
+            # name mode: the key is the config's name and says nothing about upstream tasks.  A task of a prerequisite
+            # config that two chains share, whose inputs (a pattern reaching into the root's namespace) are different
+            # objects in them, is one object wired to whichever chain was built last - a use name mode does not cover
+            # (the config name must identify the computation)
+            for n, o in self.by_name.items():
+                ins = sorted(id(self.by_name[i['target']]) for i in mtasks[n].inputs if i['present'])
+                if o.wired is None:
+                    o.wired = ins
+                elif o.wired != ins:
+                    raise model.OutOfDomain('name mode: a task shared by several chains has different upstream tasks in them')
 
     def mt_of(self, o):
         return self.local_mt.get(id(o), o.mt)
